@@ -22,7 +22,7 @@ RULE = ("models x N in 1..4 x every missing-data mask of the n_y x N panel x std
         "x data vector; distinct non-trivial = (model, N, mask, std setting, deviation, rescale, data)")
 MANIFEST_ENTRY = dict(level="exploration", design="DESIGN.md section 4 / C03",
     technique="bounded-exhaustive enumeration of all missing-data masks x configurations on generated state-space models; explicit joint-Gaussian stacking oracle (one linear solve per conditioning set)",
-    text="For 13 (quick) / 18 (thorough) solved stationary models (1-4 states, 1-2 observables, with/without measurement shocks, lagged state in the measurement equation, AR(2), coupled oscillating AR(2) pair with complex roots, forward-looking, log observable), every span length N<=3 (quick; N<=4 thorough) and EVERY missing-data mask of the n_y x N panel, under 3 std settings (incl. time-varying stds from data), deviation on/off, rescale_variance on/off and 2 dense data vectors, the filter's neg_log_likelihood (two entry points), per-period contributions (sum and each one, zero for empty periods), var_scale, predict/update/smooth means and variances of every variable and shock, prediction errors and prediction MSE matrices are compared with exact conditioning of the stacked joint normal law; a two-variant model on two-variant data must reproduce the two single-variant runs (rescale_variance on/off); each output group requested alone (return_predict / return_update / return_smooth) and likelihood_contributions=False must give what the all-outputs run gives.",
+    text="For 13 (quick) / 18 (thorough) solved stationary models (1-4 states, 1-2 observables, with/without measurement shocks, lagged state in the measurement equation, AR(2), coupled oscillating AR(2) pair with complex roots, forward-looking, log observable), every span length N<=3 (quick, N<=4 with one observable; thorough N<=5, N<=6 with one observable) and EVERY missing-data mask of the n_y x N panel, under 3 std settings (incl. time-varying stds from data), deviation on/off, rescale_variance on/off and 2 dense data vectors, the filter's neg_log_likelihood (two entry points), per-period contributions (sum and each one, zero for empty periods), var_scale, predict/update/smooth means and variances of every variable and shock, prediction errors and prediction MSE matrices are compared with exact conditioning of the stacked joint normal law; a two-variant model on two-variant data must reproduce the two single-variant runs (rescale_variance on/off); each output group requested alone (return_predict / return_update / return_smooth) and likelihood_contributions=False must give what the all-outputs run gives.",
     note="Trusted: numpy linear algebra and ref/gauss.py; the solution matrices are taken from get_solution() (decided by C01). Standard deviations are compared as variances; shock stds that the implementation does not report (NaN) are pinned to the set measured on the unchanged tree. Unit-root models are covered under the default diffuse_method='fixed_unknown' only (oracle: GLS-concentrated likelihood in the coordinates of the reported triangular solution); approx_diffuse is not covered.")
 ASSUMPTIONS = ["the first-order solution matrices are correct (C01)", "initial condition = stationary law under the model's assigned stds; for unit roots: fixed unknown initial condition of the unit-root block of the reported triangular solution"]
 
@@ -470,7 +470,7 @@ def run(ctx, total, info):
     shards = []
     for spec in models(ctx.tier) + unit_root_models(ctx.tier)[: (3 if ctx.quick else 4)]:
         ny = len(spec.meas)
-        maxN = (3 if ny == 2 else 4) if ctx.quick else 4
+        maxN = (3 if ny == 2 else 4) if ctx.quick else (5 if ny == 2 else 6)
         for N in range(1, maxN + 1):
             for s in range(3):
                 for dev in (False, True):
